@@ -280,7 +280,21 @@ def _f10(op, a, out, msg):
     if op.name != "garbage" or out != "Timeout" or not a[0].startswith("rec"):
         return False
     mt = re.match(r"^R(\d+)/", a[1])
-    return bool(mt) and int(mt.group(1)) > 10 ** 6
+    if not mt:
+        return False
+    reps = int(mt.group(1))
+    if reps > 10 ** 6:
+        return True
+    # ... or a derived far bound more than 1e7 days from the anchor: (reps - 1) x a huge interval
+    days = 0.0
+    for part in a[1].split("/")[1:]:
+        if part.startswith(("P", "-P")):
+            date, _, time = part.partition("T")
+            for num, unit in re.findall(r"(\d+(?:[.,]\d+)?)([YMWD])", date):
+                days += float(num.replace(",", ".")) * {"Y": 365, "M": 30, "W": 7, "D": 1}[unit]
+            for num, unit in re.findall(r"(\d+(?:[.,]\d+)?)([HMS])", time):
+                days += float(num.replace(",", ".")) / {"H": 24, "M": 1440, "S": 86400}[unit]
+    return max(reps - 1, 1) * days > 10 ** 7
 
 
 def _f11(op, a, out, msg):
@@ -299,28 +313,35 @@ class TextAccept(Op):
     model = False
 
     def gen(self, rng, tier, boost):
-        n = 1200 * boost if tier == "quick" else 6000 * boost
+        n = 4000 * boost if tier == "quick" else 40000 * boost
         for _ in range(n):
             m = gens.mode(rng)
             y = rng.choice([2000, 2001, 2004, 1900, 2015, 1, 9999])
             kind = rng.choice("cow")
             hh, mi, ss = rng.choice([(0, 0, 0), (23, 59, 59), (24, 0, 0), (24, 0, 1), (24, 1, 0), (25, 0, 0),
-                                     (12, 60, 0), (12, 0, 60), (12, 30, 30)])
+                                     (12, 60, 0), (12, 0, 60), (12, 30, 30), (24, 30, 0), (24, 59, 0), (23, 59, 0),
+                                     (24, 0, 0), (12, 30, 0), (7, 0, 0)])
+            ext = rng.random() < 0.5
+            # the time in every precision that can spell it, the zone in every spelling of UTC
+            times = [("T%02d:%02d:%02d" if ext else "T%02d%02d%02d") % (hh, mi, ss)]
+            if ss == 0:
+                times.append(("T%02d:%02d" if ext else "T%02d%02d") % (hh, mi))
+                if mi == 0:
+                    times.append("T%02d" % hh)
+            tail = rng.choice(times) + rng.choice(["Z", "Z", "+00:00" if ext else "+0000", "+00"])
             if kind == "c":
                 mo = rng.choice([0, 1, 2, 4, 12, 13])
                 d = rng.choice([0, 1, 28, 29, 30, 31, 32])
-                text = rng.choice(["%04d-%02d-%02dT%02d:%02d:%02dZ", "%04d%02d%02dT%02d%02d%02dZ"]) % (
-                    y, mo, d, hh, mi, ss)
+                text = ("%04d-%02d-%02d" if ext else "%04d%02d%02d") % (y, mo, d) + tail
                 args = (y, mo, None, None, d, None, hh, mi, ss, 0, 0)
             elif kind == "o":
                 n_ = rng.choice([0, 1, 60, 360, 361, 365, 366, 367])
-                text = rng.choice(["%04d-%03dT%02d:%02d:%02dZ", "%04d%03dT%02d%02d%02dZ"]) % (y, n_, hh, mi, ss)
+                text = ("%04d-%03d" if ext else "%04d%03d") % (y, n_) + tail
                 args = (y, None, None, n_, None, None, hh, mi, ss, 0, 0)
             else:
                 w = rng.choice([0, 1, 51, 52, 53, 54])
                 d = rng.choice([0, 1, 7, 8])
-                text = rng.choice(["%04d-W%02d-%dT%02d:%02d:%02dZ", "%04dW%02d%dT%02d%02d%02dZ"]) % (
-                    y, w, d, hh, mi, ss)
+                text = ("%04d-W%02d-%d" if ext else "%04dW%02d%d") % (y, w, d) + tail
                 args = (y, None, w, None, None, d, hh, mi, ss, 0, 0)
             yield (m, text) + args
 
